@@ -1,5 +1,6 @@
 """C12 - periodic Hellos: pacing, purpose, silence."""
 from props.base import *
+NEEDS_FLOW = True     # the Darwin flow and tick wiring sliced out of darwin-main.c
 NEEDS_VIEW = True     # reads the public fields of the automata objects
 COQ_TARGETS = ['props/Properties_C12.vo']
 CORR_IS_SPEC = False
